@@ -3,7 +3,7 @@
 import math
 from fractions import Fraction
 
-from common import Result, pmap, compare, enc_value, dec_value, canon_py, Catch, HANG, ERR_CODES
+from common import confirm_hang, Result, pmap, compare, enc_value, dec_value, canon_py, Catch, HANG, ERR_CODES
 
 ID = 'C17'
 COQ_FILES = ['Properties/C17.v', 'Proofs/RoundingProofs.v', 'Proofs/RadixProofs.v', 'Proofs/Digits.v']
@@ -471,6 +471,8 @@ def explore(ctx):
     hangs = 0
     for item, vs in zip(work, pmap(_worker, work, limit=4.0)):
         if vs == HANG:
+            vs = confirm_hang(_worker, item)
+        if vs == HANG:
             hangs += 1
             R.violate({item[0]: item[1]}, 'the call did not return within 4 s (every call must terminate)', None,
                       'termination', 'no result')
@@ -514,6 +516,8 @@ def search(ctx, proof, res):
         work.append(('base', (rng.randint(0, 2 ** 39), rng.randint(-2, 40))))
     work += [('roman', n) for n in range(1, 4000)]
     for item, vs in zip(work, pmap(_worker, work, limit=4.0)):
+        if vs == HANG:
+            vs = confirm_hang(_worker, item)
         if vs == HANG:
             R.violate({item[0]: item[1]}, 'the call did not return within 4 s', None)
             continue
